@@ -294,7 +294,17 @@ def edge_facts(f, blk, k):
     if c is None or len(blk["succ"]) != 2 or blk.get("tk") == "SwitchStmt":
         return []
     truth = (k == 0)
-    return [(f.r(a), t, a) for a, t in cond_atoms(f, c, truth)]
+    out = []
+    for a, t in cond_atoms(f, c, truth):
+        out.append((f.r(a), t, a))
+        # `p != 0` / `p == 0` / `0 == p` say the same about p as `p` / `!p`
+        n = f.nodes[f.strip(a)]
+        if n["k"] == "BinaryOperator" and n.get("op") in ("==", "!=") and len(n["c"]) == 2:
+            z = [is_zero(f, x) for x in n["c"]]
+            if z[0] != z[1]:
+                other = n["c"][0] if z[1] else n["c"][1]
+                out.append((no_casts(f.r(other)), (n["op"] == "!=") == bool(t), f.strip(other)))
+    return out
 
 
 # --------------------------------------------------------------------------- field write events
